@@ -229,6 +229,38 @@ class Ctx(object):
                 module, cfg, res.exit, res.out[-3000:]))
         return accepted
 
+
+    def trace_check(self, module, cfg, trace, keyfn, label="trace", dfs=False, sample_at=1):
+        """Validate recorded records with a Trace_* spec; account; report the first rejected record."""
+        if not trace:
+            return 0
+        acc = self.validate(module, cfg, trace, label=label, dfs=dfs)
+        self.traces += acc
+        self.evaluations += len(trace)
+        for r in trace[:acc]:
+            self.distinct.add(hashlib.md5(canon(r).encode()).hexdigest())
+        if acc < len(trace):
+            r = trace[acc]
+            self.violation("%s:rejected:%s" % (module, keyfn(r)), {"record": r, "index": acc})
+        self.sample({"recorded_trace_record": trace[min(sample_at, len(trace) - 1)]})
+        return acc
+
+    def binding_demo(self, module, cfg, trace, corrupt, limit=40):
+        """Corrupt one record of a prefix of an accepted trace; the trace spec must reject exactly there."""
+        bad = [dict(r) for r in trace[:limit]]
+        for k, r in enumerate(bad):
+            c = corrupt(r)
+            if c is not None:
+                bad[k] = c
+                break
+        else:
+            raise MachineryError("binding demo: nothing to corrupt in %s" % module)
+        acc = self.validate(module, cfg, bad, label="corrupt")
+        if acc != k:
+            raise MachineryError("%s does not bind: corrupted record %d, accepted %d" % (module, k, acc))
+        self.extra.setdefault("binding_demo", []).append(
+            "%s: corrupted record %d of %d rejected at index %d" % (module, k, len(bad), acc))
+
     # ---------------------------------------------------------------- bookkeeping
     def case(self, scenario, nontrivial=True, traces=1):
         """Count one scenario executed against the implementation."""
